@@ -1,7 +1,7 @@
 (* Properties/C19.v — general expression parser: totality, conventional precedence,
    sound folding, display round trip.  Statements only; proofs are in Proofs/Expr*.v. *)
 From Coq Require Import ZArith NArith List Bool Reals Lia Lra.
-From SV Require Import Base.Num Base.Outcome Base.Str Model.Expr Model.RefExpr Proofs.ExprTotal Proofs.ExprFold.
+From SV Require Import Base.Num Base.Outcome Base.Str Model.Expr Model.RefExpr Proofs.ExprTotal Proofs.ExprFold Proofs.ExprRead Proofs.ExprReadJuxt Proofs.ExprRefute Proofs.ExprDisplay.
 Import ListNotations.
 
 (* 1. TOTALITY, for every number type (so for reals and for f64): the lexer, parse_expr given
@@ -73,3 +73,122 @@ Proof.
   - unfold pow_val. destruct (is_integer_dec 2) as [_|N]; [|exfalso; apply N; apply (is_integer_IZR 2)].
     destruct (Req_EM_T (0 + 3 * 5) 0) as [E|_]; [exfalso; lra|eexists; reflexivity].
 Qed.
+
+(* 2. CONVENTIONAL PRECEDENCE (partial).  [fragmentJ ts] (Proofs/ExprReadJuxt.v): every token is a number,
+   variable, constant, parenthesis or one of + - * / ^ ! (no function, no %, no explicit ·); an operand end is
+   directly followed by an operand start only where the code supports juxtaposition (number·variable,
+   number·constant, number·( , variable/constant followed by number, variable, constant or ( ); every - follows
+   an operand end (it is a binary minus).  On that fragment the tree returned by parse_expr / parse_unfolded is
+   the tree of the stratified reference reader Model/RefExpr.v up to the paren flags — for ALL lengths and
+   nestings: juxtaposition binds tighter than * and / (4x^2 is one unit, 1/2x = 1/(2x)), * and / tighter than
+   + and -, ^ tighter still, all left-associative, ! postfix, parentheses.
+   MISSING for the full statement c19_parser_reads: the constructs on which the current code is refuted below
+   (prefix minus, functions) or deviates from the reference (%, explicit ·: findings F16h, F16i). *)
+Theorem c19_parser_reads_partial : forall (ts : list (token R)) (e : expr R),
+  fragmentJ ts -> parse_unfolded ts = Ok e ->
+  exists e', ref_read ts = Some e' /\ e' = erase e /\ forall rho, denote e rho = denote e' rho.
+Proof. exact Proofs.ExprReadJuxt.c19_parser_reads_partial_lemma. Qed.
+Check c19_parser_reads_partial : forall (ts : list (token R)) (e : expr R),
+  fragmentJ ts -> parse_unfolded ts = Ok e ->
+  exists e', ref_read ts = Some e' /\ e' = erase e /\ forall rho, denote e rho = denote e' rho.
+Print Assumptions c19_parser_reads_partial.
+
+(* the same for [parser] (= fold after parse_unfolded): the value of the reading, where defined and
+   where the fold is sound (premise of c19_fold_sound) *)
+Theorem c19_parser_reads_folded_partial : forall (ts : list (token R)) (e : expr R),
+  fragmentJ ts -> parser ts = Ok e ->
+  exists u e', parse_unfolded ts = Ok u /\ ref_read ts = Some e' /\
+    forall rho v, denote e' rho = Some v -> pow_safe u rho -> denote e rho = Some v.
+Proof. exact Proofs.ExprReadJuxt.c19_parser_reads_folded_partial_lemma. Qed.
+Check c19_parser_reads_folded_partial : forall (ts : list (token R)) (e : expr R),
+  fragmentJ ts -> parser ts = Ok e ->
+  exists u e', parse_unfolded ts = Ok u /\ ref_read ts = Some e' /\
+    forall rho v, denote e' rho = Some v -> pow_safe u rho -> denote e rho = Some v.
+Print Assumptions c19_parser_reads_folded_partial.
+
+(* outside the fragment the statement is FALSE for the code as it is: x/-y*z (finding F16a) ... *)
+Theorem c19_unary_refuted :
+  exists (ts : list (token R)) (e e' : expr R) (rho : env),
+    parser ts = Ok e /\ ref_read ts = Some e' /\ denote e rho <> denote e' rho.
+Proof. exact Proofs.ExprRefute.c19_unary_refuted_lemma. Qed.
+Check c19_unary_refuted :
+  exists (ts : list (token R)) (e e' : expr R) (rho : env),
+    parser ts = Ok e /\ ref_read ts = Some e' /\ denote e rho <> denote e' rho.
+Print Assumptions c19_unary_refuted.
+
+(* ... and sin(x)^2 (finding F16b) *)
+Theorem c19_func_refuted :
+  exists (ts : list (token R)) (e e' : expr R) (rho : env),
+    parser ts = Ok e /\ ref_read ts = Some e' /\ denote e rho <> denote e' rho.
+Proof. exact Proofs.ExprRefute.c19_func_refuted_lemma. Qed.
+Check c19_func_refuted :
+  exists (ts : list (token R)) (e e' : expr R) (rho : env),
+    parser ts = Ok e /\ ref_read ts = Some e' /\ denote e rho <> denote e' rho.
+Print Assumptions c19_func_refuted.
+
+(* non-vacuity: (x + y) * 4z^2! - 1/2x is in the fragment and is parsed; 1/2x is read as 1/(2x) *)
+Example c19_reads_nonvacuous :
+  let x := @TVar R [120%N] in let y := @TVar R [121%N] in let z := @TVar R [122%N] in
+  let ts := [TLParen; x; TOp OAdd; y; TRParen; TOp OMul; TNum 4%R; z; TOp OCaret; TNum 2%R; TOp OFac;
+             TOp OSub; TNum 1%R; TOp ODiv; TNum 2%R; x] in
+  fragmentJ ts /\ exists e, parse_unfolded ts = Ok e.
+Proof. cbn zeta. split; [split; [reflexivity|exact I]|eexists; reflexivity]. Qed.
+Example c19_reads_juxt :
+  @parse_unfolded R [TNum 1%R; TOp ODiv; TNum 2%R; TVar [120%N]]
+  = Ok (EBin ODiv (ENum 1%R) (EBin OMul (ENum 2%R) (EVar [120%N]) false) false).
+Proof. reflexivity. Qed.
+
+(* 4. DISPLAY ROUND TRIP (partial).  [dfrag e] (Proofs/ExprDisplay.v): e is built from one-letter variables
+   other than e / E, the constant e, + - * / % ^ and postfix !, and every operand of an operator is an atom,
+   a factorial of an operand, or a binary operation carrying its paren flag (fully parenthesised below the
+   top operator); no number occurs.  Such trees are in the parser's image, and lexer, parser and fold of the
+   printed text give back the very same tree, for every number type and every rendering of numbers.
+   MISSING for the full statement: numbers (needs the specification of `{}` on f64), the juxtaposition
+   shortcuts of Display (2x, x^2, 2x^2), operands left unparenthesised by precedence, functions, prefix minus —
+   and, on the current tree, the refuted classes below. *)
+Theorem c19_display_roundtrip_partial : forall (T : Type) (NT : Num T) (fmt : T -> str) (e : expr T),
+  dfrag e = true -> @reread T NT fmt e = Ok e.
+Proof. exact (@Proofs.ExprDisplay.c19_display_roundtrip_partial_lemma). Qed.
+Check c19_display_roundtrip_partial : forall (T : Type) (NT : Num T) (fmt : T -> str) (e : expr T),
+  dfrag e = true -> @reread T NT fmt e = Ok e.
+Print Assumptions c19_display_roundtrip_partial.
+
+(* refuted on the current tree, for every rendering of numbers:
+   (-x)^y prints as "-x ^ y" and reads back as -(x^y)   (finding F16e) *)
+Theorem c19_display_prefix_refuted : forall fmt : R -> str,
+  exists (ts : list (token R)) (e e' : expr R) (rho : env),
+    parser ts = Ok e /\ reread fmt e = Ok e' /\ denote e' rho <> denote e rho.
+Proof. exact Proofs.ExprRefute.c19_display_prefix_refuted_lemma. Qed.
+Check c19_display_prefix_refuted : forall fmt : R -> str,
+  exists (ts : list (token R)) (e e' : expr R) (rho : env),
+    parser ts = Ok e /\ reread fmt e = Ok e' /\ denote e' rho <> denote e rho.
+Print Assumptions c19_display_prefix_refuted.
+
+(* pi prints as U+03C0, which the lexer rejects   (finding F16g) *)
+Theorem c19_display_constant_refuted : forall fmt : R -> str,
+  exists (ts : list (token R)) (e : expr R),
+    parser ts = Ok e /\ reread fmt e = Err EUnexpectedChar.
+Proof. exact Proofs.ExprRefute.c19_display_constant_refuted_lemma. Qed.
+Check c19_display_constant_refuted : forall fmt : R -> str,
+  exists (ts : list (token R)) (e : expr R),
+    parser ts = Ok e /\ reread fmt e = Err EUnexpectedChar.
+Print Assumptions c19_display_constant_refuted.
+
+(* (0 + x*y)^z folds to a tree printed as "x * y ^ z", read back as x*(y^z)   (finding F16c) *)
+Theorem c19_display_fold_paren_refuted : forall fmt : R -> str,
+  exists (ts : list (token R)) (e e' : expr R) (rho : env),
+    parser ts = Ok e /\ reread fmt e = Ok e' /\ denote e' rho <> denote e rho.
+Proof. exact Proofs.ExprRefute.c19_display_fold_paren_refuted_lemma. Qed.
+Check c19_display_fold_paren_refuted : forall fmt : R -> str,
+  exists (ts : list (token R)) (e e' : expr R) (rho : env),
+    parser ts = Ok e /\ reread fmt e = Ok e' /\ denote e' rho <> denote e rho.
+Print Assumptions c19_display_fold_paren_refuted.
+
+(* non-vacuity: ((x + y) * z)! ^ (x / e) is in the fragment; it is what the parser returns for its own text *)
+Example c19_display_nonvacuous :
+  let x := @EVar R [120%N] in let y := @EVar R [121%N] in let z := @EVar R [122%N] in
+  let e := EBin OCaret (EPost OFac (EBin OMul (EBin OAdd x y true) z true)) (EBin ODiv x (EConst KE) true) false in
+  dfrag e = true /\
+  parser [TLParen; TLParen; TVar [120%N]; TOp OAdd; TVar [121%N]; TRParen; TOp OMul; TVar [122%N]; TRParen; TOp OFac;
+          TOp OCaret; TLParen; TVar [120%N]; TOp ODiv; TConst KE; TRParen] = Ok e.
+Proof. cbn zeta. split; reflexivity. Qed.
